@@ -163,3 +163,16 @@ Theorem c03_every_delivered_spawn_id_was_created :
       sm_get (ev_id (qi_ev x)) (w_ents w') <> None \/ Dead (w_ents w') (ev_id (qi_ev x)).
 Proof. exact delivered_spawn_ids_are_created. Qed.
 Print Assumptions c03_every_delivered_spawn_id_was_created.
+
+(* The cursor invariant through a whole propagation without the capacity hypothesis of c03_..cursor.. (Quiet.flush_RI):
+   under it a materialisation cannot fail half-way, so nothing has to be excluded except the FUB outcomes. *)
+Theorem c03_the_cursor_invariant_survives_every_propagation :
+  forall (beh : hinfo -> logent -> N -> script) (q : list qitem) (w : world),
+    RO w -> ~ ubf (EvLedger.res_fail (flush beh q w)) -> RO (WorldFrame.res_world (flush beh q w)).
+Proof. exact flush_RO. Qed.
+Print Assumptions c03_the_cursor_invariant_survives_every_propagation.
+
+Theorem c03_a_materialisation_cannot_fail_under_the_cursor_invariant :
+  forall (w : world), RO w -> exists w', spawn_all w = ROk tt w' /\ RO w' /\ Quiet w'.
+Proof. exact spawn_all_cannot_fail. Qed.
+Print Assumptions c03_a_materialisation_cannot_fail_under_the_cursor_invariant.
